@@ -390,7 +390,9 @@ def run_cases(ctx, res, cfgs, scripts_for, build_tag_prefix="pm", per_case=False
             lost = 0.0          # seconds gone into dying processes of this option set (same idea as core.DEATH_BUDGET_S)
             for (name, lines) in sc:
                 if lost > 300:
-                    crashed[name] = (124, "skipped: 300 s have gone into dying processes of this option set")
+                    # not a verdict: the slow deaths seen so far are reported; the remaining cases of this option set are not run
+                    # (on the unchanged tree this happens in the thorough tier, where the recorded chain findings hang repeatedly)
+                    crashed[name] = (-999, "skipped")
                     outs.append("> CASE %s\n" % name)
                     continue
                 t1 = time.time()
@@ -433,6 +435,9 @@ def run_cases(ctx, res, cfgs, scripts_for, build_tag_prefix="pm", per_case=False
             for o in set(ops):
                 res.count("op:" + o, ops.count(o))
             res.distinct.add((c.tag, tuple(lines[1:])))
+            if name in crashed and crashed[name][0] == -999:
+                res.count("cases not run: 300 s had gone into dying processes of their option set")
+                continue
             if name in crashed:
                 sit = situation(c, lines)
                 rc1, msg = crashed[name]
